@@ -502,6 +502,16 @@ func saveStatus(ctx context.Context, c client.Client, nodeRuntime *networkv1beta
 	if err != nil {
 		return fmt.Errorf("failed to save node runtime status %w", err)
 	}
+	if changed == controllerutil.OperationResultCreated {
+		// create does not persist the status subresource, write it with a second pass
+		_, err = controllerutil.CreateOrPatch(ctx, c, update, func() error {
+			update.Status = nodeRuntime.Status
+			return nil
+		})
+		if err != nil {
+			return fmt.Errorf("failed to save node runtime status %w", err)
+		}
+	}
 	if changed != controllerutil.OperationResultNone {
 		logf.Log.Info("changed node runtime status", "pods", nodeRuntime.Status.Pods)
 	}
